@@ -25,6 +25,7 @@ from common import Ctx, Finding, Outcome, err_class
 import sys
 
 sys.path.insert(0, str(common.VERIF / "tools"))
+import c04_src  # noqa: E402  (source translator: three stage functions of from_arrays.py -> Gen/FromArraysSrc.lean)
 import gen_periodic  # noqa: E402  (the C06 model behind Driver/C04b.lean reads the generated periodic table)
 
 PROPERTY = "C04"
@@ -34,7 +35,9 @@ LEAN_TARGETS = ["QcelVerif.Props.C04", "QcelVerif.Driver.C04", "QcelVerif.Props.
                 # extension C04b: the fixed point at the default settings with no hypothesis on the atoms
                 "QcelVerif.Lemmas.C04Rd64", "QcelVerif.Props.C04DefaultNuc", "QcelVerif.Props.C04DefaultTabA",
                 "QcelVerif.Props.C04DefaultTabB", "QcelVerif.Props.C04DefaultTabC", "QcelVerif.Props.C04DefaultTabD", "QcelVerif.Props.C04DefaultTabE",
-                "QcelVerif.Props.C04Default", "QcelVerif.Props.C04DefaultText"]
+                "QcelVerif.Props.C04Default", "QcelVerif.Props.C04DefaultText",
+                # extension C04d: validate_and_fill_geometry / _nuclei / _fragments regenerated from the source and proved equal to the hand models
+                "QcelVerif.Model.FromArraysAst", "QcelVerif.Props.C04Src"]
 DRIVER = "QcelVerif/Driver/C04.lean"
 # second stream: the same lines through a driver that COMPUTES the per-atom reconciliation with the C06 model
 # (Model/ReconC06.lean) instead of reading the implementation's answers from the line — from_arrays end to end in Lean
@@ -43,7 +46,7 @@ DRIVER_C06 = "QcelVerif/Driver/C04b.lean"
 # fromSchema (toSchemaU P r dtype) (ops TS / TS6), the dictionary itself (TSd) and the hypotheses + predicted image of the
 # theorem schema_roundtrip (TSh)
 DRIVER_TS = "QcelVerif/Driver/C04c.lean"
-TRANSLATORS = [gen_periodic.main]
+TRANSLATORS = [gen_periodic.main, c04_src.gen_from_arrays_src]
 THEOREMS = [
     ("QcelVerif.FromArrays.from_arrays_inv",
      "fromArrays env i = ok r -> Inv r (equal per-atom lengths, 3 coordinates per atom, every atom's (A,Z,E,mass,real,label) "
@@ -174,11 +177,41 @@ THEOREMS = [
      "C07's read_write_validated_psi4 with its fixed-point hypothesis hfix replaced by 'r was built by fromArrays at the default settings' (every other hypothesis C07's, unchanged)"),
     ("QcelVerif.TextToMol.read_write_validated_xyzplus_default", "C07's read_write_validated_xyzplus likewise"),
     ("QcelVerif.TextToMol.text_roundtrip_same_hash_default", "C07's headline text_roundtrip_same_hash likewise: Molecule -> psi4 text -> Molecule keeps the hash for every record built at the default settings"),
+    # ---- extension C04d (Props/C04Src.lean): the stage logic regenerated from the source
+    ("QcelVerif.FromArrays.translation_ok", "the translator harness/c04_src.py recognised every statement of validate_and_fill_geometry / _nuclei / _fragments (an unknown shape leaves ok := false)"),
+    ("QcelVerif.FromArrays.evalGeom_eq", "the program generated from validate_and_fill_geometry (reshape refusal, metric = tooclose**2, pair loop over x < y, `dists < metric`, final raise), run by the evaluator, equals the hand model validateGeometry for every threshold and geometry"),
+    ("QcelVerif.FromArrays.evalNuclei_eq", "the program generated from validate_and_fill_nuclei (six None fills, -1 = None rebuild of elea, the chained shape comparison before the `if nat:` guard, the per-atom reconcile_nucleus loop over range(nat)) equals the hand model validateNuclei for every reconciler, atom count and input"),
+    ("QcelVerif.FromArrays.evalFragments_eq", "the statement-by-statement program generated from validate_and_fill_fragments (None dispatch, trial np.split, empty-fragment test under nat != 0, sum-of-lengths test, None * nfr fills, len(frc) == len(frm) == len(frs) + 1) equals the hand model validateFragments for all arguments"),
+    ("QcelVerif.FromArrays.fromArraysWith_eq", "from_arrays with its geometry / nuclei / fragment stages taken from the source-derived programs equals the hand model fromArrays for every environment and input"),
+    ("QcelVerif.FromArrays.fromSchemaWith_eq", "the same for from_schema (its inner from_arrays call answered by the source-derived pipeline)"),
+    ("QcelVerif.FromArrays.from_arrays_inv_src", "invariant restated over the source-derived pipeline: whatever it accepts satisfies Inv (reconciler sound)"),
+    ("QcelVerif.FromArrays.from_arrays_idempotent_src", "fixed point restated over the source-derived pipeline (reconciler idempotent)"),
+    ("QcelVerif.FromArrays.refuses_geom_not_3n_src", "source-derived pipeline: a geometry that is not 3 numbers per atom is a ValidationError"),
+    ("QcelVerif.FromArrays.refuses_too_close_src", "source-derived pipeline: some pair closer than tooclose => ValidationError"),
+    ("QcelVerif.FromArrays.refuses_length_mismatch_src", "source-derived pipeline: a supplied per-atom array whose length is not the atom count => ValidationError (also for zero atoms)"),
+    ("QcelVerif.FromArrays.refuses_bad_separators_src", "source-derived pipeline: separators whose trial split of nat > 0 atoms has an empty block (empty / unsorted / out of range) are never accepted"),
+    ("QcelVerif.FromArrays.refuses_fragment_length_mismatch_src", "source-derived pipeline: a fragment_charges / fragment_multiplicities list that does not have len(separators)+1 entries is never accepted"),
+    ("QcelVerif.FromArrays.src_fragments_partition", "whatever the source-derived fragment stage accepts cuts the nat atoms into consecutive blocks, none empty when nat > 0, whose sizes add up to nat, with one charge and one multiplicity slot per block"),
+    ("QcelVerif.FromArrays.src_sum_test_redundant", "finding about the source: whenever the empty-fragment test passes (no empty block, or zero atoms) the block sizes of the trial split add up to nat — the second test "
+     "(from_arrays.py:740-745, 'overlapping fragment(s), possibly unsorted') can never fire; unsorted separators are refused by the first test"),
+    ("QcelVerif.FromArrays.src_exact_threshold_accepted", "test (kernel-evaluated on the generated program): a closest pair EXACTLY at tooclose passes the overlap screen, a closer one and a 5-number geometry are ValidationErrors"),
 ]
 TRUSTED_BASE = [
     "Lean 4.33 kernel; axioms per theorem audited on every run (subset of propext, Classical.choice, Quot.sound)",
     "hand-written model Model/FromArrays.lean of from_arrays.py:301-408,411-501,504-547,594-616,619-702,705-773 and from_schema.py, "
-    "tied by differential correspondence on the generated stream through from_arrays, from_schema and Molecule(...)",
+    "tied by differential correspondence on the generated stream through from_arrays, from_schema and Molecule(...) — EXCEPT the three stages named next, which are now regenerated from the source",
+    "REGENERATED FROM THE SOURCE (extension C04d): harness/c04_src.py reads validate_and_fill_geometry, validate_and_fill_nuclei and validate_and_fill_fragments of from_arrays.py by `ast` on every run "
+    "(unknown statement shapes are refused) and emits Gen/FromArraysSrc.lean; Model/FromArraysAst.lean is the evaluator of that small syntax; Props/C04Src.lean proves evaluator(generated program) = "
+    "hand model (validateGeometry / validateNuclei / validateFragments) for all inputs and hence fromArraysWith = fromArrays, fromSchemaWith = fromSchema, and restates the refusal / invariant / fixed-point "
+    "headlines over the source-derived pipeline. Translated INTO the term (so a change breaks a proof): statement and branch order, every condition of validate_and_fill_fragments (None dispatch, "
+    "empty-fragment test under `nat != 0`, sum-of-lengths test, the `len(frc) == len(frm) == len(frs) + 1` chain, what frs/frc/frm/nfr are assigned), the comparison operators of np.any / np.where, the exponent of "
+    "tooclose ** 2, the slice offset x + 1, the terms and position (before / inside `if nat:`) of the shape chain, the -1 = None rebuild, the `if nat:` guard. Only COMPARED with a fixed expected shape by the translator "
+    "(trusted re-statement in the evaluator): np.array(...).reshape((-1, 3)) = rows3, einsum('ij,ij->i') of the differences = dist2 (exact in Q), np.asarray([None] * nat), np.split(np.zeros((nat, 3)), seps, axis=0) = npSplit, "
+    "the keyword mapping of the reconcile_nucleus(...) call, the returned dictionaries, the raised class ValidationError, float(f) = identity on the integer-valued charges of the scope. "
+    "The translator and the evaluator are in the trusted base; the driver (ops FAs / FSs of Driver/C04.lean) answers every line and every fed-back record a second time from the generated program: three-way "
+    "comparison implementation / hand model / source-derived program",
+    "still hand models tied only differentially: validate_and_fill_units, validate_and_fill_frame, validate_and_fill_chgmult's call on Z*real, from_arrays' own dispatch on domain / missing_enabled_return, the merge, "
+    "zero_ghost_fragments, from_schema / contiguize_from_fragment_pattern, to_schema",
     "reconcile_nucleus taken as a parameter (hypotheses NucSound / NucIdem) in Props/C04.lean; its answers travel on the line protocol of the first stream",
     "Props/C04C06.lean instantiates the parameter with the C06 model over the generated periodic table (adapter Model/ReconC06.lean: Clue->Input, Output->Nuc, error classes); "
     "NucSound is discharged in full, NucIdem is false in general and proved for self-consistent atoms / supplied masses / plain molecules; residual: rd odd (proved for rd64) "
@@ -208,6 +241,8 @@ ASSUMPTIONS = [
     "integer (or integer-valued float) charges and multiplicities; integer separators; ASCII strings; finite coordinates",
     "missing_enabled_return in {'error','minimal'}; zero atoms with 'minimal' only without separators (atom-less record with separators is outside the quantifier)",
     "pair distances and input_units_to_au within 1e-9 of their thresholds are not generated (implementation compares in double, model in Q)",
+    "exception to the exclusion zone: the exact-threshold stream puts the closest pair EXACTLY at tooclose on binary-fraction lattices (tooclose in {0.5, 0.25, 2.0}; coordinates, squared distances and tooclose**2 are exact "
+    "doubles, so double and Q comparisons coincide); `closer than the threshold` is strict, as in the source (`dists < metric`): such molecules are accepted, a pair at 3/4 of the threshold is refused",
     "feed-back of a record uses speclabel=False (the record's elbl is the user part of the label only)",
     "negative separators are Python slice indices: accepted when the split still partitions the atoms in order (property demands the partition, not canonical separators)",
     "schema round trip: the oracle demands from_schema(to_schema(rec)) == rec-in-Bohr only for records with >= 1 atom, validated under from_schema's own mtol (1e-3) and whose exported (Bohr) "
@@ -250,7 +285,11 @@ RULE = (
     "mass of a non-default isotope, by argument or '@mass' label; a mass half-way between two adjacent isotopes (mtol >= 0.5); default — nonphysical=False, mtol mostly the default, through "
     "from_arrays, from_schema and Molecule; diffed against both Lean drivers like every other case. EVERY accepted record of every stream is now fed back TWICE (the record returned by the first "
     "feed-back must itself be returned unchanged: oracle:not_fixed_point_second_pass), and whenever nonphysical=False and 0 <= mtol <= 0.9865 the driver's SelfConsistent test on the model's "
-    "record must hold (instance of narrow_window_selfconsistent; a failure is reported as a broken tie)."
+    "record must hold (instance of narrow_window_selfconsistent; a failure is reported as a broken tie). "
+    "SOURCE-DERIVED VOICE: every primary line and every fed-back record is answered a third time by Driver/C04.lean ops FAs / FSs — the pipeline whose geometry / nuclei / fragment stages are the programs "
+    "generated from the source on this run — and compared three ways (implementation / hand model / generated program: mismatch:src:* and mismatch:src-vs-model:*). "
+    "EXACT-THRESHOLD STREAM: valid from_arrays cases of >= 2 atoms moved onto a binary-fraction lattice of step tooclose in {0.5, 0.25, 2.0} (closest pair exactly AT the threshold: must be accepted, "
+    "`<` not `<=`), half of them with one atom at 3/4 of the threshold (must be refused)."
 )
 LEVEL_TEXT = (
     "proof for the record-level pipeline of from_arrays/from_schema/to_schema (model), parametric in the per-atom reconciler (C06) and reusing C05; "
@@ -269,9 +308,13 @@ LEVEL_TEXT = (
     "wrong array length, dropped atoms) are proved, and the C04 and C09 schema models are proved to agree (C09's from_arrays parameter discharged); formula_generator, the "
     "Angstrom->Bohr factor and the rounding of one product are parameters; the tie to the code is differential (sampled) on three streams (reconciler answers taken from the "
     "implementation / computed by the C06 model end to end / records through to_schema -> from_schema) plus call sequences checked against the stateless model; "
-    "partial: pydantic coercion in Molecule.__init__ and _filter_defaults are compared behaviourally only"
+    "partial: pydantic coercion in Molecule.__init__ and _filter_defaults are compared behaviourally only; "
+    "SOURCE TIE (partial): for three of the stage functions — validate_and_fill_geometry, validate_and_fill_nuclei, validate_and_fill_fragments — the hand model is no longer tied only differentially: their "
+    "decision logic is regenerated from the source by a translator on every run and PROVED equal to the hand model for all inputs (Props/C04Src.lean), so the invariant / fixed-point / refusal theorems hold of "
+    "the source-derived pipeline; numpy primitives keep a trusted re-statement in the evaluator, and units / frame / chgmult call / dispatch / merge / from_schema / to_schema stay hand models tied differentially"
 )
-TECHNIQUE = "Lean 4 proof of invariant/idempotence/refusal theorems about a stage-by-stage model + differential correspondence through three entry points + independent oracle"
+TECHNIQUE = ("Lean 4 proof of invariant/idempotence/refusal theorems about a stage-by-stage model + source translator (ast -> Lean program) with equality proofs for three stages "
+             "+ differential correspondence through three entry points + independent oracle")
 
 PER_ATOM = ["elea", "elez", "elem", "mass", "real", "elbl"]
 SCHEMA_NAME = {"elea": "mass_numbers", "elez": "atomic_numbers", "elem": "symbols", "mass": "masses", "real": "real", "elbl": "atom_labels"}
@@ -1577,6 +1620,40 @@ def acceptable_case(case):
     return True
 
 
+def gen_exact_threshold(rng):
+    """a valid from_arrays case whose CLOSEST pair lies EXACTLY at the overlap threshold: atoms on distinct points of the lattice
+    (tooclose * Z)^3 with tooclose in {0.5, 0.25, 2.0} (binary fractions: the coordinates, every squared distance and tooclose**2 are
+    exact doubles, so the implementation's comparison in double IS the exact one and the 1e-9 exclusion zone is not needed).  `closer than
+    the threshold` is strict (`dists < metric`): such a molecule must be accepted.  Half of the cases move one atom to 3/4 of the lattice
+    step from its neighbour (closer than the threshold: must be refused)."""
+    for _ in range(50):
+        c = gen_valid(rng, "FA")
+        n = len(c["kw"].get("geom") or []) // 3
+        if n >= 2:
+            break
+    tc = rng.choice([0.5, 0.25, 2.0])
+    pts = {(0, 0, 0), (1, 0, 0)} if rng.random() < 0.5 else {(0, 0, 0), (0, 0, 1)}
+    while len(pts) < n:
+        pts.add((rng.randrange(-2, 3), rng.randrange(-2, 3), rng.randrange(-2, 3)))
+    pts = sorted(pts)
+    rng.shuffle(pts)
+    g = [tc * x for p in pts for x in p]
+    c["st"]["tooclose"] = tc
+    c["tag"] = "valid"
+    c["exact_threshold"] = "at"
+    if rng.random() < 0.5:
+        # one atom closer than the threshold to (0,0,0): 3/4 of a step along a free axis direction
+        k = pts.index((0, 0, 0))
+        j = next(i for i in range(n) if i != k)
+        g[3 * j: 3 * j + 3] = [0.0, 0.75 * tc, 0.0] if (0, 1, 0) not in pts else [0.0, -0.75 * tc, 0.0]
+        if (0, 1, 0) in pts and (0, -1, 0) in pts:
+            g[3 * j: 3 * j + 3] = [0.375 * tc, 0.375 * tc, 0.0]
+        c["tag"] = "tooclose_exact"
+        c["exact_threshold"] = "below"
+    c["kw"]["geom"] = g
+    return c
+
+
 def strip_case(case):
     c = {k: v for k, v in case.items() if not k.startswith("_")}
     return json.loads(json.dumps(c))
@@ -1608,6 +1685,9 @@ def gen_cases(ctx: Ctx):
             c = gen_iso(rng, entry)
             if acceptable_case(c):
                 cases.append(strip_case(c))
+    # exact-threshold stream (binary-fraction lattices: closest pair exactly AT tooclose -> accepted; 3/4 of it -> refused)
+    for _ in range(ctx.scale(40, 300)):
+        cases.append(strip_case(gen_exact_threshold(rng)))
     # call sequences (consecutive in the list: `evaluate` calls the implementation in list order, in this process)
     for _ in range(ctx.scale(90, 500)):
         cases.extend(gen_sequence(rng))
@@ -1898,6 +1978,44 @@ def run_streams(ctx: Ctx, lines):
         return fa.result(), fb.result()
 
 
+def src_line(line: str) -> str:
+    """the same line with op FA -> FAs / FS -> FSs: answered by the pipeline whose geometry / nuclei / fragment stages are the programs
+    generated from the source (Gen/FromArraysSrc.lean)"""
+    return line[:2] + "s" + line[2:]
+
+
+def run_streams3(ctx: Ctx, lines):
+    """run_streams plus the source-derived answers (third voice of the three-way comparison)"""
+    from concurrent.futures import ThreadPoolExecutor
+
+    if not lines:
+        return [], [], []
+    with ThreadPoolExecutor(max_workers=3) as ex:
+        fa = ex.submit(ctx.run_model, DRIVER, lines)
+        fb = ex.submit(ctx.run_model, DRIVER_C06, lines)
+        fc = ex.submit(ctx.run_model, DRIVER, [src_line(l) for l in lines])
+        return fa.result(), fb.result(), fc.result()
+
+
+def src_compare(out: Outcome, case, tag, ci, ml, mls):
+    """three-way: implementation (ci; None when not comparable line by line) / hand model (ml) / source-derived program (mls)"""
+    if mls is None:
+        return
+    if mls == "src-untranslated":
+        out.count("src_stream:untranslated")
+        return
+    if mls.startswith("bad-op"):
+        raise RuntimeError(f"FAs/FSs line not understood by the driver: {case_key(case)[:300]}")
+    out.count("src_stream:" + tag)
+    if ml is not None and mls != ml:
+        out.mismatches.append(Finding("mismatch:src-vs-model:" + tag, case, observed=mls[:600], expected=ml[:600],
+                                      detail="the program generated from the source (Gen/FromArraysSrc.lean) and the hand model answer differently — "
+                                             "contradicts fromArraysWith_eq / fromSchemaWith_eq (Props/C04Src.lean): " + (first_diff(ml, mls) if ml.startswith("ok") and mls.startswith("ok") else "")))
+    if ci is not None and mls != ci and not (ml is not None and mls == ml):
+        out.mismatches.append(Finding("mismatch:src:" + tag, case, observed=ci[:600], expected=mls[:600],
+                                      detail="implementation vs the program generated from its own source: " + (first_diff(ci, mls) if ci.startswith("ok") and mls.startswith("ok") else "")))
+
+
 def idem_class(kw, st):
     """which theorem of Props/C04C06.lean covers the fixed point of this input (distribution only)"""
     def absent(k):
@@ -1917,14 +2035,15 @@ def evaluate(ctx: Ctx, out: Outcome, cases):
     lines = [primary_line(c) for c in cases]
     model = [None] * len(cases)
     model6 = [None] * len(cases)
+    model_src = [None] * len(cases)
     if ctx.model_available:
-        model, model6 = run_streams(ctx, lines)
+        model, model6, model_src = run_streams3(ctx, lines)
     feedback = []  # (index, line, canon of the implementation's record)
     sc_lines = []  # (index, primary line with op FAq/FSq): is the hypothesis of from_arrays_idempotent_c06_partial met?
     not_fixed = set()  # indices where the implementation's record fed back did not come back unchanged
     results = []
     fresh_budget = [8]  # fresh-interpreter re-runs of suspicious sequence calls (each costs an import of the library)
-    for idx, (case, line, ml, ml6) in enumerate(zip(cases, lines, model, model6)):
+    for idx, (case, line, ml, ml6, mls) in enumerate(zip(cases, lines, model, model6, model_src)):
         entry, st = case["entry"], case["st"]
         res = impl_primary(case)
         results.append(res)
@@ -2074,6 +2193,8 @@ def evaluate(ctx: Ctx, out: Outcome, cases):
                         out.mismatches.append(Finding("mismatch:MOL", case, observed=ci, expected=ml, detail="Molecule accepted what the from_schema model refuses"))
                     elif ml != ci:
                         out.mismatches.append(Finding("mismatch:MOL", case, observed=ci, expected=ml, detail="error class"))
+        # ---------------- correspondence, source-derived stages (three-way; for Molecule(...) only program vs hand model)
+        src_compare(out, case, entry, ci if entry != "MOL" else None, ml, mls)
         # ---------------- history independence (sequences): the stateless model disagrees -> what does a fresh process say?
         if case.get("seq") and case["seq"]["pos"] > 0 and ml is not None and entry != "MOL" and ml != ci and fresh_budget[0] > 0:
             fresh_budget[0] -= 1
@@ -2121,9 +2242,10 @@ def evaluate(ctx: Ctx, out: Outcome, cases):
                 out.count("SelfConsistent_hypothesis(from_arrays_idempotent_c06_partial):model_refuses")
     # ---------------- second pass: the accepted records through the model again (both streams)
     if ctx.model_available and feedback:
-        ans, ans6 = run_streams(ctx, [l for _, l, _ in feedback])
-        for (idx, _l, ci), ml, ml6 in zip(feedback, ans, ans6):
+        ans, ans6, ans_src = run_streams3(ctx, [l for _, l, _ in feedback])
+        for (idx, _l, ci), ml, ml6, mls in zip(feedback, ans, ans6, ans_src):
             out.count("fed_back")
+            src_compare(out, cases[idx], "feedback", ci, ml, mls)
             if "TABLE-MISS" in ml or ml.startswith("bad-op") or ml6.startswith("bad-op"):
                 raise RuntimeError(f"feed-back line not understood by the driver: {ml} / {ml6} / {case_key(cases[idx])[:300]}")
             if ml != ci:
